@@ -10,7 +10,7 @@ VARIABLE l
 vars == <<pvars, l>>
 Line == Rec[l]
 
-TInit == /\ l = 1 /\ tasks = {} /\ rq = <<>> /\ phase = "none" /\ cur = 0 /\ atTop = FALSE
+TInit == /\ l = 1 /\ tasks = {} /\ rq = <<>> /\ phase = "none" /\ cur = 0 /\ curGen = 0 /\ atTop = FALSE
          /\ wokeDuring = FALSE /\ pendingWake = {} /\ lens = <<0, 0>>
          /\ TLCSet(1, 1)
 
@@ -19,7 +19,7 @@ Ev(e) == l <= Len(Rec) /\ Line.e = e /\ l' = l + 1
 \* a new case: whatever state the previous command instance was left in is forgotten
 Case ==
   /\ Ev("new")
-  /\ tasks' = {Line.a} /\ rq' = <<Line.a>> /\ phase' = "idle" /\ cur' = 0 /\ atTop' = FALSE
+  /\ tasks' = {Line.a} /\ rq' = <<Line.a>> /\ phase' = "idle" /\ cur' = 0 /\ curGen' = 0 /\ atTop' = FALSE
   /\ wokeDuring' = FALSE /\ pendingWake' = {Line.a} /\ lens' = <<0, 0>>
 
 Bit(n, b) == (n \div b) % 2 = 1
@@ -30,8 +30,8 @@ Steps ==
   \/ Ev("cleared") /\ Cleared(Line.a, Line.b)
   \/ Ev("spawn")   /\ Spawn(Line.a)
   \/ Ev("pop")     /\ Pop(Line.a)
-  \/ Ev("poll")    /\ Poll(Line.a)
-  \/ Ev("wake")    /\ Wake(Line.a)
+  \/ Ev("poll")    /\ Poll(Line.a, Line.b)
+  \/ Ev("wake")    /\ Wake(Line.a, Line.b)
   \/ Ev("polled")  /\ Polled(Line.a, Line.b = 1, Bit(Line.d, 2), Bit(Line.d, 1))
   \/ Ev("settled") /\ Settled(Line.a, Line.b, Line.d)
   \/ Ev("isdone")  /\ IsDone(Line.a = 1)
